@@ -55,12 +55,29 @@ def gen_cases(rng, n):
 
 
 def impl(cases):
+    """the real apply_bounds on VECTORS whose coordinates have different boxes (numpy broadcasts per coordinate): consecutive cases of
+    the same method are grouped three by three into one genome; also a second row so that the (rows x coordinates) shape is exercised"""
     from pyhms.demes.single_pop_eas.common import apply_bounds
-    out = []
+    out = [None] * len(cases)
     np.seterr(all="ignore")
-    for m, x, lo, hi, _ in cases:
-        y = apply_bounds(np.array([[x, x]]), np.array([[lo, hi], [lo, hi]]), m)
-        out.append(float(y[0, 0]))
+    buckets = {}
+
+    def flush(m, idxs):
+        xs = [cases[i][1] for i in idxs]
+        box = np.array([[cases[i][2], cases[i][3]] for i in idxs])
+        mid = [cases[i][2] + (cases[i][3] - cases[i][2]) / 2 for i in idxs]
+        y = apply_bounds(np.array([xs, mid]), box, m)
+        for k, i in enumerate(idxs):
+            out[i] = float(y[0, k])
+    for i, c in enumerate(cases):
+        b = buckets.setdefault(c[0], [])
+        b.append(i)
+        if len(b) == 3:
+            flush(c[0], b)
+            buckets[c[0]] = []
+    for m, b in buckets.items():
+        if b:
+            flush(m, b)
     return out
 
 
